@@ -288,6 +288,57 @@ def run(ctx):
               message="_untransform_numerical_param can return (with transform_log=True, non-single domain) a value that was not clipped to "
                       "[d.low, d.high] / capped below nextafter(d.high): samplers working in the transformed box could return out-of-domain values",
               how="must-dataflow: `param` is clip/min-bounded at every return reachable with transform_log=True")
+    # ------------------------------------------------------------ R10.6 transform built from the current distribution
+    ctx.rule("R10.6", "samplers: every search-space transform used for bounds/untransform is constructed in the current call from the "
+             "distribution(s) passed to that call (no memoisation across trials keyed by parameter name)")
+    n_recv = 0
+    for sf in p.iter_funcs(("optuna.samplers",)):
+        recv = set()
+        for x in own_nodes(sf.node):
+            if isinstance(x, ast.Attribute) and x.attr in ("untransform", "bounds", "transform") and isinstance(x.value, ast.Name) and isinstance(x.ctx, ast.Load):
+                recv.add(x.value.id)
+        for name in sorted(recv):
+            assigns = [n for n in own_nodes(sf.node) if isinstance(n, (ast.Assign, ast.AnnAssign))
+                       and any(isinstance(t, ast.Name) and t.id == name for t in (n.targets if isinstance(n, ast.Assign) else [n.target]))]
+            if not assigns:
+                if name in sf.params():
+                    # a parameter: every caller in the samplers package passes a locally constructed transform (or its own parameter)
+                    for cf, c in call_sites(p, sf.name, ("optuna.samplers",)):
+                        idx = sf.params().index(name) - (1 if sf.cls is not None else 0)
+                        a = kwarg(c, name, idx)
+                        if a is None:
+                            continue
+                        okp = isinstance(a, ast.Name) and (a.id in cf.params() or any(
+                            isinstance(n, ast.Assign) and any(isinstance(t, ast.Name) and t.id == a.id for t in n.targets)
+                            and isinstance(n.value, ast.Call) and (dotted(n.value.func) or "").endswith("_SearchSpaceTransform") for n in own_nodes(cf.node)))
+                        ctx.check(okp, "R10.6", cf.short, f"transform-arg:{sf.name}", message=f"{cf.name} passes `{norm(a)}` as the transform of {sf.name}",
+                                  how="argument is a transform constructed in the caller", nontrivial=False)
+                continue
+            # only names that really hold transforms
+            if not any(isinstance(n.value, ast.Call) and (dotted(n.value.func) or "").endswith("_SearchSpaceTransform") for n in assigns if n.value is not None) \
+                    and not any("ransform" in norm(n.value) for n in assigns if n.value is not None):
+                continue
+            n_recv += 1
+            bad = [n for n in assigns if not (n.value is not None and isinstance(n.value, ast.Call) and (dotted(n.value.func) or "").endswith("_SearchSpaceTransform"))]
+            ctx.check(not bad, "R10.6", sf.short, f"transform-constructed-here:{name}",
+                      message=f"{sf.name} takes the search-space transform `{name}` from `{norm(bad[0].value)[:60] if bad else ''}` instead of constructing it from the "
+                              f"distribution passed to this call: a value sampled for a different range/step/log setting of the same name is returned (outside the declared domain)",
+                      how="all definitions are _SearchSpaceTransform(<current search space>)", where=where(sf, bad[0]) if bad else None)
+            for n in assigns:
+                if n not in bad and n.value.args:
+                    a0 = n.value.args[0]
+                    names = {y.id for y in ast.walk(a0) if isinstance(y, ast.Name)}
+                    localdefs = single_defs(sf.node)
+                    deep = set(names)
+                    for nm in list(names):
+                        if nm in localdefs:
+                            deep |= {y.id for y in ast.walk(localdefs[nm]) if isinstance(y, ast.Name)}
+                    okd = bool(deep & set(sf.params()))
+                    ctx.check(okd, "R10.6", sf.short, f"transform-from-call-arguments:{name}",
+                              message=f"{sf.name} builds its transform from `{norm(a0)[:60]}`, which does not derive from this call's arguments",
+                              how="constructor argument derives from the function's parameters", nontrivial=False)
+    ctx.floor("R10.6", "transform_receivers", n_recv, 3)
+
     # transform_log=False only where nothing is untransformed
     nf = 0
     for cf, c in call_sites(p, "_SearchSpaceTransform", ("optuna",)):
